@@ -88,6 +88,11 @@ impl CacheRegion {
   pub fn set_bank(&mut self, bank: u16) {
     self.current_bank = bank;
   }
+
+  /// Forget every cached block; the currently selected bank is kept.
+  pub fn clear(&mut self) {
+    self.cache.clear();
+  }
 }
 
 /// CachedBlocks stores individual lookup caches for each region of memory that
@@ -111,6 +116,16 @@ impl CachedBlocks {
       wram_high: CacheRegion::new(1),
       high_ram: CacheRegion::new(0),
     }
+  }
+
+  /// Forget every cached block in every region.
+  pub fn clear(&mut self) {
+    self.rom_low.clear();
+    self.rom_high.clear();
+    self.cart_ram.clear();
+    self.wram_low.clear();
+    self.wram_high.clear();
+    self.high_ram.clear();
   }
 
   /// Select the switchable ROM bank that lookups and insertions in the
